@@ -45,10 +45,15 @@ def balanced(text: str) -> bool:
     return not stack and last == len(toks) - 1 and toks[-1].start[0] == src.count('\n') + 1
 
 
+REDOS_GUARD = True      # switched off by the harness when the timing probe shows that the tree under test is repaired (C05-F7)
+
+
 def redos_risk(text: str, limit=14) -> bool:
     """pfst's _re_trailing_comma/_re_trailing_semicolon backtrack exponentially in the length of a run of blanks / newlines /
     ')' / line continuations / comment lines that follows a node and is not followed by the separator (finding C05-F7); such
     a run at the end of the text would hang the harness (the regex engine cannot be interrupted) -> the caller skips it."""
+    if not REDOS_GUARD:
+        return False
     t = text
     n = 0
     while True:
@@ -1037,6 +1042,8 @@ def variants(text, block):
     v.append(('trail-comment-line', text + '\n# ü', 0, 0))
     v.append(('trail-newline', text + '\n', 0, 0))
     v.append(('lead-blank', '\n' + text, 1, 0))
+    v.append(('trail-blanks', text + ' ' * 40, 0, 0))              # skipped (redos_risk) while C05-F7 is unrepaired
+    v.append(('trail-blanks-comment', text + ' ' * 28 + '# é\n' + ' ' * 20, 0, 0))
     if not block:
         v.append(('lead-cont', '\\\n' + text, 1, 0))
         v.append(('lead-space', '  ' + text, 0, 2))
